@@ -108,21 +108,7 @@ Inductive xop :=
 | XRange (lo hi : bound)          (* try_get_log_entries on the store and on its log reader *)
 | XRestart.                       (* rocks only: drop the store, open the directory again *)
 
-Definition leader_snapshot (es : list entry) : snapshot := sm_snapshot (sm_apply es smv0).
 Definition apply_res (es : list entry) : string := str_of_nat (length es).
-
-Definition mem_xstep (s : mstore) (o : xop) : option (mstore * string) :=
-  match o with
-  | XVote v => Some (ms_save_vote v s, "")
-  | XAppend es => Some (ms_append es s, "")
-  | XDelete l => Some (ms_delete_since l s, "")
-  | XPurge l => Some (ms_purge l s, "")
-  | XApply es => if sm_panics es (ms_sm s) then None else Some (ms_apply es s, apply_res es)
-  | XBuild => let s' := ms_build s in Some (s', str_opt str_snapshot (ms_snap s'))
-  | XInstall es => if sm_panics es smv0 then None else Some (ms_install (leader_snapshot es) s, "")
-  | XRange lo hi => let r := str_entries (mem_range lo hi (ms_log s)) in Some (s, r ++ "&" ++ r)
-  | XRestart => None
-  end.
 
 Definition to_op (o : xop) : option op :=
   match o with
@@ -130,6 +116,16 @@ Definition to_op (o : xop) : option op :=
   | XPurge l => Some (OPurge l) | XApply es => Some (OApply es) | XBuild => Some OBuild
   | XInstall es => Some (OInstall (leader_snapshot es))
   | XRange _ _ | XRestart => None
+  end.
+
+Definition mem_xstep (s : mstore) (o : xop) : option (mstore * string) :=
+  match o with
+  | XApply es => if sm_panics es (ms_sm s) then None else Some (ms_step s (OApply es), apply_res es)
+  | XBuild => let s' := ms_step s OBuild in Some (s', str_opt str_snapshot (ms_snap s'))
+  | XInstall es => if sm_panics es smv0 then None else Some (ms_step s (OInstall (leader_snapshot es)), "")
+  | XRange lo hi => let r := str_entries (mem_range lo hi (ms_log s)) in Some (s, r ++ "&" ++ r)
+  | XRestart => None
+  | _ => match to_op o with Some p => Some (ms_step s p, "") | None => None end
   end.
 
 Definition rocks_xstep (s : rstore) (o : xop) : option (rstore * string) :=
